@@ -113,6 +113,8 @@ def sx(term) -> str:
     """serialise for the Lean drivers: time presentations (`@...`) and the query type of a
     `noop` are stripped — the Lean side sees instants and a single `noop`."""
     if isinstance(term, str):
+        if term in ("!m", "!r"):
+            return "!"          # the Lean side knows one kind of offending element
         if term.startswith("now:"):
             return term[4:]
         return term.split("@")[0] if "@" in term else term
@@ -306,9 +308,23 @@ class NotAPoint:
     """stands for a non-Point element inside insert_multiple"""
 
 
+class MutatedPoint:
+    """marker: a valid Point whose tag dict is mutated to an invalid state after construction"""
+
+
+class RaisingIterable:
+    """marker: the caller's iterable raises at this position"""
+
+
 def build_point(t, tf):
     if t == "!":
         return NotAPoint()
+    if t == "!m":
+        p = tf.Point(time=EPOCH + timedelta(days=18000), tags={"a": "x"})
+        p.tags["a"] = 5          # bypasses validation: insert must reject it
+        return p
+    if t == "!r":
+        return RaisingIterable()
     assert t[0] == "pt"
     tags = {unhx(k): opt_str(v) for k, v in t[3][1:]}
     fields = {unhx(k): parse_num(v) for k, v in t[4][1:]}
